@@ -182,4 +182,17 @@ let step_cmd (req : json) : json =
     | k -> failwith ("unknown step kind " ^ k) in
   Obj [ ("lands", jopt jz r) ]
 
-let () = main_loop [ ("accept", accept); ("step", step_cmd) ]
+(* the classes of the known findings, evaluated by the predicates that guard the theorems *)
+let classify (req : json) : json =
+  let arr k = Array.of_list (List.map to_int (to_list (field req k))) in
+  let pcs = arr "pc" and rets = arr "ret" in
+  let n = Array.length pcs in
+  let tz (a : int array) (x : z) : z = let i = small_of_z x in if i < 0 || i >= n then failwith "trajectory too short" else z_of_small a.(i) in
+  match to_str (field req "class") with
+  | "Known_stepout_stack_dirty" ->
+    Obj [ ("holds", Bool (known_stepout_stack_dirty (tz pcs) (tz rets) (to_z (field req "call")) (to_z (field req "index")))) ]
+  | "Known_breakpoint_self_loop" ->
+    Obj [ ("holds", Bool (known_breakpoint_self_loop (tz pcs) (to_z (field req "index")))) ]
+  | c -> failwith ("unknown class " ^ c)
+
+let () = main_loop [ ("accept", accept); ("step", step_cmd); ("classify", classify) ]
